@@ -26,7 +26,7 @@ RULE = ("objects = LASFiles built in memory or read back from text (mnemonic_cas
 ASSUMPTIONS = ["write() output is compared only when the original itself can be written",
                "observable equality = canonical snapshot (rv/canon.py) + write() text; identity of objects is not required"]
 REQUIRED = ["copies_compared", "objects_with_edited_index", "objects_with_disambiguated_mnemonic", "independence_checks", "write_text_comparisons",
-            "item_copies", "section_copies", "items_with_identity_sensitive_value"]
+            "item_copies", "section_copies", "items_with_identity_sensitive_value", "objects_with_reordered_or_aliased_curve_arrays"]
 SOFT_DEADLINE = {"quick": 90, "thorough": 1200}
 LEVEL_TEXT = ("Exploration: every copy made is compared field by field and by write() output with its source, and "
               "mutated to prove independence; workload aims at disambiguated mnemonics in every section kind.")
@@ -43,15 +43,15 @@ for sect in ("well", "params", "curves", "custom"):
 
 def grid(tier):
     import random
-    for k in range(60):
+    for k in range(72):
         rng = random.Random("C17grid%d" % k)
         spec = lasobj.rand_spec(rng, text_curve=0.0, min_curves=3, custom=0.0)
         if len(spec["curves"][0][4]) < 4:
             for c in spec["curves"]:
                 c[4] = (c[4] * 4)[:4]
             spec["curves"][0][4] = [100.0 + 0.5 * i for i in range(4)]
-        variant = ["numeric_text_curve", "stale_suffix", "edited_index", "padded_names", "singleton_values"][k % 5]
-        yield {"kind": "spec", "spec": spec, "via": "upper" if variant == "edited_index" else None, "methods": METHODS, "variant": variant}
+        variant = ["numeric_text_curve", "stale_suffix", "edited_index", "padded_names", "singleton_values", "reordered_views"][k % 6]
+        yield {"kind": "spec", "spec": spec, "via": "upper" if variant == "edited_index" else ("preserve" if variant == "reordered_views" and k % 4 < 2 else None), "methods": METHODS, "variant": variant}
     for sect, names in GRID_SPECS:
         for via in (None, "preserve", "upper", "lower"):
             yield {"kind": "layout", "section": sect, "names": names, "via": via}
@@ -66,7 +66,7 @@ def n_random(tier):
 def random_case(rng, tier):
     spec = lasobj.rand_spec(rng)
     via = rng.choice([None, None, "preserve", "upper", "lower"])
-    return {"kind": "spec", "spec": spec, "via": via, "methods": rng.sample(METHODS, 3), "seed_variant": rng.randrange(6)}
+    return {"kind": "spec", "spec": spec, "via": via, "methods": rng.sample(METHODS, 3), "seed_variant": rng.randrange(7)}
 
 
 def layout_spec(section, names):
@@ -117,7 +117,7 @@ def run_case(case, ctx):
         if via and (case["kind"] == "layout" or text_can_carry(spec)) and not _has_custom_or_textcurve(spec):
             spec["via_text"] = {"read": {"mnemonic_case": via}}
         methods = case.get("methods", METHODS)
-        variant = case.get("variant") or ("none" if case["kind"] == "layout" else ["none", "numeric_text_curve", "stale_suffix", "edited_index", "padded_names", "singleton_values"][case.get("seed_variant", 0) % 6])
+        variant = case.get("variant") or ("none" if case["kind"] == "layout" else ["none", "numeric_text_curve", "stale_suffix", "edited_index", "padded_names", "singleton_values", "reordered_views"][case.get("seed_variant", 0) % 7])
 
         def rebuild():
             las = lasobj.build(lasio, spec)
@@ -150,6 +150,17 @@ def run_case(case, ctx):
                     ctx.count("items_with_identity_sensitive_value", 2)
                 if len(las.curves) >= 2:
                     las.curves[1].value = np.nan
+            if variant == "reordered_views" and len(las.curves) >= 3:
+                # curves that are column views of the block a read produced (or owners after set_data), then re-ordered and aliased:
+                # the copy owns fresh arrays, the original still points into the old block
+                if all(np.asarray(c.data).dtype.kind == "f" for c in las.curves):
+                    if case.get("seed_variant", 0) % 2 == 0 and not via:
+                        las.set_data(np.array(las.data, copy=True))
+                    item = las.curves[1]
+                    las.delete_curve(ix=1)
+                    las.append_curve_item(item)
+                    las.curves[1].data = las.curves[2].data
+                    ctx.count("objects_with_reordered_or_aliased_curve_arrays")
             if variant == "stale_suffix":
                 # delete the first member of every duplicate family: the survivors keep their (now stale) suffixes
                 for sec in las.sections.values():
